@@ -1,1 +1,375 @@
-fn main() { println!("MACHINERY-ERROR check not built yet"); std::process::exit(2); }
+//! C16 — scalers and whiteners achieve their normalisation and act as fixed row-wise maps.
+//!
+//! Bounded exhaustive sweep (DESIGN.md §4 C16), seven families, each enumerated completely:
+//!   alphabet   every n x p matrix over {0, 1, -2, 1001, 1e-3} with n in 1..4, p in 1..3 and
+//!              n*p <= 8 (quick) / 9 (thorough): post-conditions of all scalers, norm scalers and
+//!              (n > p) whiteners on the training matrix, affine map from the accessors, row-wise map;
+//!   tiny       columns base + delta * mask, base in {0, 1, 1001}, delta in {1e-12, 1e-18, 2^-52},
+//!              every 0/1 mask, n in {2,3}, p in {1,2} (sub-epsilon spreads);
+//!   pairs      every (training matrix A, unseen matrix B) from two pools per p: affine map from the
+//!              accessors on B, transform(B) row i == transform(B[i..i+1]), every permutation and
+//!              every subset of the rows of B, bit for bit;
+//!   norm       the norm scalers on every pool matrix with the full row-wise check;
+//!   whiten     a catalogue of full-rank 6 / 8 / 12-row matrices x every per-column image
+//!              {id, +1001, x1e-3} x global scale {1, 1e-10, 1e9} x PCA / ZCA / Cholesky;
+//!   dataset    dataset forms (1-D / 2-D targets, weights, feature and target names, owned / view);
+//!   errors     empty training data, flipped min-max range, wrong column count.
+//! All of it in f32 and f64. Oracle = plain f64 recomputation (run.rs), no linfa code.
+
+mod run;
+
+use lvmc_core::enumerate as en;
+use lvmc_core::{json, par_sweep, Ctx, Level, Value, Violation};
+use run::*;
+use std::sync::atomic::{AtomicU64, Ordering};
+use std::sync::Mutex;
+
+const ALPHABET: [f64; 5] = [0.0, 1.0, -2.0, 1001.0, 1e-3];
+const FLOATS: [&str; 2] = ["f64", "f32"];
+
+enum Job {
+    /// matrices start..end (base-5 digits of the index = the entries) of shape n x p
+    Alphabet { n: usize, p: usize, start: u64, end: u64, whiten: bool },
+    One(Case),
+}
+
+fn decode(mut idx: u64, n: usize, p: usize) -> Mat {
+    let mut m = vec![vec![0.0; p]; n];
+    for i in 0..n {
+        for j in 0..p {
+            m[i][j] = ALPHABET[(idx % 5) as usize];
+            idx /= 5;
+        }
+    }
+    m
+}
+
+fn groups(g: &[&str]) -> Vec<String> {
+    g.iter().map(|s| s.to_string()).collect()
+}
+
+fn fit_case(family: &str, float: &str, p: usize, train: Mat, tests: Vec<Mat>, full: bool, g: &[&str]) -> Case {
+    Case { kind: "fit".into(), family: family.into(), float: float.into(), p, train, tests, full_rowwise: full, groups: groups(g), cfg: None, ds: None }
+}
+
+fn row_pool(p: usize, which: &str) -> Vec<Vec<f64>> {
+    match (which, p) {
+        ("train", 1) => vec![vec![0.0], vec![1.0], vec![-2.0], vec![1001.0], vec![1e-3]],
+        ("train", 2) => vec![vec![0.0, 0.0], vec![1.0, -2.0], vec![1001.0, 1e-3], vec![1e-3, 1.0], vec![-2.0, 1001.0]],
+        ("train", _) => vec![vec![0.0, 0.0, 0.0], vec![1.0, -2.0, 1001.0], vec![1e-3, 1.0, 0.0], vec![1001.0, 1001.0, 1e-3], vec![-2.0, 0.0, 1.0]],
+        (_, 1) => vec![vec![0.0], vec![2.5], vec![-1001.0], vec![1e-3], vec![7.0]],
+        (_, 2) => vec![vec![0.0, 0.0], vec![2.5, -7.0], vec![1.0, 1.0], vec![-1e-3, 1001.0], vec![1001.0, 0.5]],
+        (_, _) => vec![vec![0.0, 0.0, 0.0], vec![2.5, -7.0, 1e3], vec![1.0, 1.0, 1.0], vec![-1e-3, 4.0, 1001.0], vec![1001.0, -2.0, 0.5]],
+    }
+}
+
+/// Pool of matrices = every multiset (as a sorted row sequence) of n_min..=n_max rows of the row pool,
+/// plus the reversed 4-row sequence of rows 1..4 (so that a 4-row matrix — 24 permutations — is
+/// always present).
+fn matrix_pool(p: usize, which: &str, n_min: usize, n_max: usize) -> Vec<Mat> {
+    let rows = row_pool(p, which);
+    let mut out: Vec<Mat> = Vec::new();
+    for ms in en::multisets_upto(rows.len(), n_min, n_max, n_max.max(1)) {
+        out.push(ms.iter().map(|&i| rows[i].clone()).collect());
+    }
+    let four: Mat = vec![rows[4].clone(), rows[3].clone(), rows[2].clone(), rows[1].clone()];
+    if !out.contains(&four) {
+        out.push(four);
+    }
+    out
+}
+
+/// Whitening catalogue: deterministic full-rank base matrices x per-column images x global scales.
+fn catalogue() -> Vec<(String, usize, Mat)> {
+    let mut out = Vec::new();
+    for p in 1..=3usize {
+        for &n in &[6usize, 8, 12] {
+            for fam in ["lattice", "correlated"] {
+                let mut base = vec![vec![0.0; p]; n];
+                for i in 0..n {
+                    for j in 0..p {
+                        base[i][j] = if fam == "lattice" {
+                            ((i * (j + 2) + j * j + i * i * (j + 1)) % 5) as f64 + 10.0 * en::jitter(i, j)
+                        } else if j == 0 {
+                            i as f64 + 10.0 * en::jitter(i, 0)
+                        } else {
+                            0.9f64.powi(j as i32) * i as f64 + 0.3 * ((i * (j + 3)) % 4) as f64 + 10.0 * en::jitter(i, j)
+                        };
+                    }
+                }
+                for assign in en::grid(&vec![3; p]) {
+                    for &g in &[1.0f64, 1e-10, 1e9] {
+                        let m: Mat = base
+                            .iter()
+                            .map(|r| {
+                                r.iter()
+                                    .enumerate()
+                                    .map(|(j, &x)| {
+                                        let y = match assign[j] {
+                                            0 => x,
+                                            1 => x + 1001.0,
+                                            _ => x * 1e-3,
+                                        };
+                                        y * g
+                                    })
+                                    .collect()
+                            })
+                            .collect();
+                        let tag = format!("catalogue:{}:n{}:cols{:?}:scale{:e}", fam, n, assign, g);
+                        out.push((tag, p, m));
+                    }
+                }
+            }
+        }
+    }
+    out
+}
+
+/// Tiny-spread family: all matrices whose columns are drawn from the column menu of the given n.
+fn tiny_family() -> Vec<(usize, Mat)> {
+    let mut out = Vec::new();
+    for n in [2usize, 3] {
+        let mut cols: Vec<Vec<f64>> = Vec::new();
+        for &base in &[0.0f64, 1.0, 1001.0] {
+            cols.push(vec![base; n]); // constant
+            for &delta in &[1e-12f64, 1e-18, f64::EPSILON] {
+                for mask in 1u32..(1u32 << n) {
+                    cols.push((0..n).map(|i| if mask >> i & 1 == 1 { base + delta } else { base }).collect());
+                }
+            }
+        }
+        cols.push([0.0, 1.0, -2.0][..n].to_vec());
+        // de-duplicate columns that coincide in f64 (1001 + 1e-18 == 1001 ...)
+        let mut uniq: Vec<Vec<f64>> = Vec::new();
+        for c in cols {
+            if !uniq.contains(&c) {
+                uniq.push(c);
+            }
+        }
+        for p in [1usize, 2] {
+            for pick in en::sequences(p, uniq.len()) {
+                let m: Mat = (0..n).map(|i| pick.iter().map(|&c| uniq[c][i]).collect()).collect();
+                out.push((p, m));
+            }
+        }
+    }
+    out
+}
+
+fn dataset_matrices(p: usize) -> Vec<(Mat, bool)> {
+    // (matrix, well-conditioned full rank => whiteners are run too)
+    match p {
+        1 => vec![(vec![vec![0.0], vec![1.0], vec![-2.0], vec![4.0]], true), (vec![vec![0.0], vec![1001.0], vec![1e-3]], false)],
+        2 => vec![
+            (vec![vec![0.0, 1.0], vec![1.0, -2.0], vec![3.0, 1.0], vec![-1.0, 0.0]], true),
+            (vec![vec![0.0, 0.0], vec![1001.0, 0.0], vec![1e-3, 0.0]], false),
+        ],
+        _ => vec![
+            (vec![vec![0.0, 1.0, 2.0], vec![1.0, -2.0, 0.0], vec![3.0, 1.0, 1.0], vec![-1.0, 0.0, 4.0], vec![2.0, 2.0, -3.0]], true),
+            (vec![vec![0.0, 0.0, 0.0], vec![1.0, 1001.0, 5.0], vec![-2.0, 1e-3, 5.0]], false),
+        ],
+    }
+}
+
+fn replay_value(v: &Value) -> Vec<Violation> {
+    let case: Case = match serde_json::from_value(v.clone()) {
+        Ok(c) => c,
+        Err(e) => {
+            println!("MACHINERY-ERROR replay case does not parse: {}", e);
+            std::process::exit(2);
+        }
+    };
+    let mut out = Vec::new();
+    run_case(&case, &mut out);
+    out
+}
+
+fn main() {
+    let ctx = Ctx::new("C16", Level::Exploration);
+    ctx.maybe_replay(&replay_value);
+    ctx.set_rule(
+        "families: alphabet = every n x p matrix over {0,1,-2,1001,1e-3}, n in 1..4, p in 1..3, n*p <= 8 (quick) / 9 (thorough); \
+         tiny = every matrix (n in {2,3}, p in {1,2}) whose columns are base + delta*mask, base in {0,1,1001}, delta in {1e-12,1e-18,2^-52}, every 0/1 mask, or constant, or [0,1,-2]; \
+         pairs = every (A, B) with A from the training pool (all multisets of 1..3 (quick) / 1..4 (thorough) of 5 rows, one 4-row matrix, the 6-row unscaled catalogue members) and B from the unseen pool \
+         (all multisets of 0..3 / 0..4 of 5 other rows, one 4-row matrix); norm = norm scalers on every pool matrix; whiten = catalogue (2 base designs x n in {6,8,12} x 3^p column images x 3 global scales); \
+         dataset = 2 matrices per p x 32 dataset forms; errors = empty training data for p in 0..3, wrong width 1..4. Every family in f64 and f32 and through every configuration: \
+         standard / no-mean / no-std / neither, min-max (0,1), (-1,1), (2,5), (3,3), flipped (5,2), max-abs, norm l1 / l2 / max, whitening PCA / ZCA / Cholesky. \
+         One evaluation = one (training matrix [, unseen matrix], float type, configuration) run through all its oracles. Non-trivial: linear scalers = training matrix with >= 2 distinct rows and a non-constant column \
+         (or an unseen matrix, or an expected error); norm scalers = a non-zero row; whiteners = full-rank training data with a verdict; dataset / error menu = all. \
+         Distinct by construction inside each family (the pools repeat a few alphabet matrices).",
+    );
+    ctx.assume("reference = plain f64 recomputation from the values as rounded to the subject's float type; relative tolerance 1e-9 (f64) / 1e-4 (f32) as in the oracle policy");
+    ctx.assume("standard scaling: unit variance = population variance (ddof 0), as the crate's own tests pin; mean / variance tolerances are REL + 16*eps_F*cond with cond = max|x| / std of the column; columns with 16*eps_F*cond > 0.05 (spread within a few ulps of the values) are indeterminate, not violations");
+    ctx.assume("datasets with fewer than two distinct rows are outside the statement's domain for the post-conditions (counted out_of_domain); the affine-map and row-wise checks still run on them");
+    ctx.assume("min-max: both ends attained within REL*(max-min) + 8*eps_F*max(|lo|,|hi|); nothing is demanded of constant columns except finite output; max-abs: nothing is demanded of all-zero columns except finite output");
+    ctx.assume("a column / row counts as constant / zero only if it is exactly so in the subject's float type (the statement exempts only constant columns and zero rows)");
+    ctx.assume("affine map: transform(x) == (x - offsets) * scales [+ offsets for the no-mean variants] [* (max - min) + min] within 8*eps_F*(operand magnitudes); whitening: (x - mean) . T^t within 8*eps_F*(p+1)*sum|T|(|x|+|mean|)");
+    ctx.assume("row-wise map: bit-for-bit equality of transform(B) rows with transform of single rows, of every row permutation and of every row subset (n <= 4: all of them; longer matrices: reversal, rotation, drop-first, every other row, empty)");
+    ctx.assume("whitening: sample covariance (n-1) of the whitened training data == identity within 1e-8 (f64) / 1e-3 (f32) + 64*eps_F*cond(cov) + 16*eps_F*max|x|/sqrt(lambda_min); full rank = n > p and equilibrated centred matrix of rank p; tolerance > 0.05 => indeterminate; rank-deficient training data => out of domain (fit outcome only tallied)");
+    ctx.assume("wrong column count: LinearScaler::transform documents a panic, which is what is checked; nothing is documented for whiteners (not checked)");
+    ctx.assume("linfa-preprocessing is built as the repository configures it: pure-Rust linfa-linalg, no BLAS feature");
+
+    // ---------------- enumerate ----------------
+    let mut jobs: Vec<Job> = Vec::new();
+    let cap = ctx.pick(8usize, 9usize);
+    let mut alphabet_matrices: u64 = 0;
+    for n in 1..=4usize {
+        for p in 1..=3usize {
+            if n * p > cap {
+                continue;
+            }
+            let total = 5u64.pow((n * p) as u32);
+            alphabet_matrices += total;
+            let whiten = n > p;
+            let chunk = 1500u64;
+            let mut s = 0;
+            while s < total {
+                let e = (s + chunk).min(total);
+                jobs.push(Job::Alphabet { n, p, start: s, end: e, whiten });
+                s = e;
+            }
+        }
+    }
+    let tiny = tiny_family();
+    for (p, m) in &tiny {
+        for f in FLOATS {
+            jobs.push(Job::One(fit_case("tiny", f, *p, m.clone(), vec![], false, &["linear", "norm"])));
+        }
+    }
+    let cat = catalogue();
+    let nmax = ctx.pick(3usize, 4usize);
+    let mut pair_count: u64 = 0;
+    let mut pool_matrices: u64 = 0;
+    for p in 1..=3usize {
+        let mut train_pool = matrix_pool(p, "train", 1, nmax);
+        for (tag, cp, m) in &cat {
+            if *cp == p && m.len() == 6 && tag.ends_with("scale1e0") {
+                train_pool.push(m.clone());
+            }
+        }
+        let test_pool = matrix_pool(p, "test", 0, nmax);
+        pair_count += (train_pool.len() * test_pool.len()) as u64;
+        for f in FLOATS {
+            for a in &train_pool {
+                jobs.push(Job::One(fit_case("pairs", f, p, a.clone(), test_pool.clone(), true, &["linear", "whiten"])));
+            }
+            for m in train_pool.iter().chain(test_pool.iter()) {
+                jobs.push(Job::One(fit_case("norm", f, p, m.clone(), vec![], true, &["norm"])));
+            }
+        }
+        pool_matrices += (train_pool.len() + test_pool.len()) as u64;
+    }
+    let mut cat_full_rank = 0u64;
+    for (tag, p, m) in &cat {
+        if whiten_domain(m, *p).full_rank {
+            cat_full_rank += 1;
+        }
+        let unseen = matrix_pool(*p, "test", 2, 2);
+        for f in FLOATS {
+            jobs.push(Job::One(fit_case(tag, f, *p, m.clone(), unseen[..3].to_vec(), false, &["whiten"])));
+        }
+    }
+    let mut dataset_cases = 0u64;
+    for p in 1..=3usize {
+        for (m, well) in dataset_matrices(p) {
+            for opt in en::grid(&[2, 2, 2, 2, 2]) {
+                for f in FLOATS {
+                    let ds = DsOpt {
+                        targets: if opt[0] == 0 { "usize_1d".into() } else { "f64_2d".into() },
+                        weights: opt[1] == 1,
+                        feature_names: opt[2] == 1,
+                        target_names: opt[3] == 1,
+                        view: opt[4] == 1,
+                    };
+                    let g: &[&str] = if well { &["linear", "norm", "whiten"] } else { &["linear", "norm"] };
+                    jobs.push(Job::One(Case {
+                        kind: "dataset".into(),
+                        family: "dataset".into(),
+                        float: f.into(),
+                        p,
+                        train: m.clone(),
+                        tests: vec![],
+                        full_rowwise: false,
+                        groups: groups(g),
+                        cfg: None,
+                        ds: Some(ds),
+                    }));
+                    dataset_cases += 1;
+                }
+            }
+        }
+    }
+    for p in 0..=3usize {
+        for f in FLOATS {
+            let mut c = fit_case("errors:empty_training", f, p, vec![], vec![], false, &["linear", "whiten"]);
+            c.kind = "errors".into();
+            jobs.push(Job::One(c));
+            if p >= 1 {
+                let mut c = fit_case("errors:wrong_width", f, p, dataset_matrices(p)[0].0.clone(), vec![], false, &["linear"]);
+                c.kind = "errors".into();
+                jobs.push(Job::One(c));
+            }
+        }
+    }
+    ctx.extra("alphabet_matrices_enumerated", json!(alphabet_matrices));
+    ctx.extra("tiny_family_matrices", json!(tiny.len()));
+    ctx.extra("pairs_train_x_unseen", json!(pair_count));
+    ctx.extra("pool_matrices", json!(pool_matrices));
+    ctx.extra("catalogue_matrices", json!(cat.len()));
+    ctx.extra("catalogue_matrices_full_rank", json!(cat_full_rank));
+    ctx.extra("dataset_cases", json!(dataset_cases));
+    ctx.extra("jobs_enumerated", json!(jobs.len()));
+
+    // ---------------- sweep ----------------
+    let jobs_done = AtomicU64::new(0);
+    let alphabet_done = AtomicU64::new(0);
+    let total = Mutex::new(Cnt::default());
+    par_sweep(&ctx, "c16 sweep", &jobs, |job| {
+        let mut cnt = Cnt::default();
+        let mut viols: Vec<Violation> = Vec::new();
+        match job {
+            Job::Alphabet { n, p, start, end, whiten } => {
+                for idx in *start..*end {
+                    let m = decode(idx, *n, *p);
+                    for f in FLOATS {
+                        let g: &[&str] = if *whiten { &["linear", "norm", "whiten"] } else { &["linear", "norm"] };
+                        let case = fit_case("alphabet", f, *p, m.clone(), vec![], false, g);
+                        cnt.merge(run_case(&case, &mut viols));
+                        if idx % 977 == 0 {
+                            ctx.sample(|| json!({"family": "alphabet", "float": f, "train": case.train}));
+                        }
+                    }
+                    alphabet_done.fetch_add(1, Ordering::Relaxed);
+                }
+            }
+            Job::One(case) => {
+                cnt.merge(run_case(case, &mut viols));
+                ctx.sample(|| json!({"family": case.family, "kind": case.kind, "float": case.float, "train": case.train, "unseen_matrices": case.tests.len(), "dataset_form": case.ds}));
+            }
+        }
+        ctx.evals(cnt.evals, cnt.nontrivial);
+        for _ in 0..cnt.ood {
+            ctx.out_of_domain();
+        }
+        for _ in 0..cnt.indet {
+            ctx.indeterminate();
+        }
+        ctx.violations(viols);
+        cnt.evals = 0;
+        cnt.nontrivial = 0;
+        cnt.ood = 0;
+        cnt.indet = 0;
+        total.lock().unwrap().merge(cnt);
+        jobs_done.fetch_add(1, Ordering::Relaxed);
+    });
+    for (k, n) in &total.lock().unwrap().extra {
+        ctx.extra(k, json!(n));
+    }
+    let done = jobs_done.load(Ordering::Relaxed);
+    ctx.extra("jobs_completed", json!(done));
+    ctx.extra("alphabet_matrices_completed", json!(alphabet_done.load(Ordering::Relaxed)));
+    if done != jobs.len() as u64 || alphabet_done.load(Ordering::Relaxed) != alphabet_matrices {
+        ctx.capped(&format!("{} of {} jobs completed", done, jobs.len()));
+    }
+    ctx.finish(&replay_value);
+}
